@@ -240,6 +240,10 @@ ILI_FILES = {
                     ('i9', None, None)]},
     'f3': {'header': 'ili\tstatus',
            'rows': [('i2', 'weird-status', None), ('i4', 'active', None)]},
+    # every column title in upper / mixed case
+    'f4': {'header': 'ILI\tSTATUS\tDefinition',
+           'rows': [('i5', 'deprecated', 'f4 on i5'), ('i2', 'provisional', 'f4 on i2'),
+                    ('i7', 'active', '')]},
 }
 
 
